@@ -89,7 +89,10 @@ func (c *Case) Evaluation(
 				isFirstBranch = true
 			}
 
-			err := e.Eval(p, ctx, nextT)
+			// the pattern belongs to 'in': evaluate it directly, so that a pattern
+			// starting with an operator character ('^pin', '*rest') is not taken
+			// for a binary operation on the previous value
+			err := DynamicEvaluators["in"].Evaluation(e, p, ctx, nextT)
 			if err != nil {
 				return err
 			}
